@@ -41,7 +41,8 @@ def canon_snapshot(snap):
 
 
 def windows(tokens):
-    """split at the B[...] tokens: [(events, snapshot, btoken, wtoken)]"""
+    """split at the B[...] tokens: [(events, snapshot, btoken, wtoken)]; a following S[...] token
+    (session states, stream histories) is kept in the dict STATES keyed by the window index"""
     out = []
     cur = []
     i = 0
@@ -52,14 +53,37 @@ def windows(tokens):
             if i + 1 < len(tokens) and tokens[i + 1].startswith("W["):
                 w = tokens[i + 1]
                 i += 1
-            out.append((cur, parse_snapshot(t), t, w))
+            st = None
+            if i + 1 < len(tokens) and tokens[i + 1].startswith("S["):
+                st = tokens[i + 1]
+                i += 1
+            out.append((cur, parse_snapshot(t), t, WTok(w, st)))
             cur = []
         else:
             cur.append(t)
         i += 1
     if cur:
-        out.append((cur, None, None, "W[]"))
+        out.append((cur, None, None, WTok("W[]", None)))
     return out
+
+
+class WTok(str):
+    """the W[...] token, with the S[...] token of the same boundary attached"""
+    def __new__(cls, w, states):
+        o = str.__new__(cls, w)
+        o.states = states
+        return o
+
+
+def parse_states(stok):
+    d = {}
+    if stok:
+        body = stok[2:-1]
+        if body:
+            for e in body.split(";"):
+                a, b = e.split(":")
+                d[int(a)] = int(b)
+    return d
 
 
 def translate(tokens, timeout, maxidle):
@@ -67,6 +91,7 @@ def translate(tokens, timeout, maxidle):
     ops = []
     expect = []
     prev_dq = {}
+    prev_state = {}
     info = []
     for evs, snap, btok, wtok in windows(tokens):
         teardown = "C" in evs
@@ -96,6 +121,10 @@ def translate(tokens, timeout, maxidle):
                     w_ops.append("xv:%s:%s:%s" % (f[1], f[2], victim))
                 else:
                     w_ops.append("x:%s:%s" % (f[1], f[2]))
+            elif k == "A":
+                w_ops.append("a:%s:%s" % (f[1], f[2]))
+            elif k == "R":
+                w_ops.append("t:%s:%s" % (f[1], f[2]))
             elif k == "Y":
                 if f[1] != "0":
                     expect.append("R:%s:%s" % (last_x, f[1]))
@@ -103,6 +132,7 @@ def translate(tokens, timeout, maxidle):
                     expect.append("R:%s:NULL" % last_x)
             elif k == "N":
                 expect.append("N:%s:%s" % (f[1], f[2]))
+                prev_state[int(f[1])] = 3 if int(f[2]) >= 1000 else 4
             elif k == "D":
                 expect.append("D:%s" % f[1])
             elif k == "F":
@@ -112,6 +142,11 @@ def translate(tokens, timeout, maxidle):
                 # model if that is news (an observed fact, taken at the moment of the release)
                 if j > last_y_pos and not teardown and len(f) > 7 and f[7] == "1" and prev_dq.get(sid) == 0:
                     q_ops.append("q:%d:1" % sid)
+                # ... and so is its state at that moment (a stream session whose peer has gone)
+                if j > last_y_pos and not teardown and len(f) > 8 and \
+                        int(f[8]) != prev_state.get(sid, int(f[8])):
+                    q_ops.append("s:%d:%s" % (sid, f[8]))
+                    prev_state[sid] = int(f[8])
             elif k in "+-":
                 if teardown and f[2] == "2":
                     continue
@@ -133,6 +168,10 @@ def translate(tokens, timeout, maxidle):
                 elif dq == 0:
                     q_ops.append("q:%d:0" % sid)
             prev_dq = cur_dq
+            for sid, stv in sorted(parse_states(wtok.states).items()):
+                if prev_state.get(sid, stv) != stv:
+                    q_ops.append("s:%d:%d" % (sid, stv))
+                prev_state[sid] = stv
         ops.extend(w_ops)
         ops.extend(q_ops)
         if pending:
@@ -188,7 +227,12 @@ def oracles(tokens, timeout, maxidle, stats):
         for t in evs:
             f = t.split(":")
             k = t[0]
-            if k == "X":
+            if k == "A":
+                last_x = None
+                last_x_now = int(f[2])
+            elif k == "R":
+                last[int(f[1])] = int(f[2])
+            elif k == "X":
                 last_x = int(f[1])
                 last_x_now = int(f[2])
                 got_y = False
@@ -252,6 +296,10 @@ def oracles(tokens, timeout, maxidle, stats):
                 sid = int(f[1])
                 if sid not in live:
                     bad.append(("del-dead", "SESSION_DEL for session %d which does not exist" % sid))
+                elif ref.get(sid, 0) > 0 and not teardown:
+                    bad.append(("del-held", "SESSION_DEL for session %d which is still referenced "
+                                "(%d references, %d by the application)"
+                                % (sid, ref.get(sid, 0), appref.get(sid, 0))))
             elif k == "F":
                 sid = int(f[1])
                 r_, nq, nobs, nas, napp = (int(x) for x in f[2:7])
@@ -275,7 +323,8 @@ def oracles(tokens, timeout, maxidle, stats):
                     facts["scan_frees"] += 1
                     if dq_f == 0:
                         bad.append(("freed-dq", "session %d released with delayed messages queued" % sid))
-                    if now_p is not None and last.get(sid, 0) + tmo > now_p:
+                    st_f = int(f[8]) if len(f) > 8 else 4
+                    if now_p is not None and st_f != 0 and last.get(sid, 0) + tmo > now_p:
                         bad.append(("early", "session %d reclaimed at %d, last activity %d, timeout %d ticks"
                                     % (sid, now_p, last.get(sid, 0), tmo)))
                 live.discard(sid)
@@ -310,6 +359,7 @@ def oracles(tokens, timeout, maxidle, stats):
         if snap is None:
             continue
         w = parse_w(wtok)
+        states = parse_states(wtok.states)
         keys = {}
         order = []
         for (sid, key, r_, last_, dq_) in snap:
@@ -327,6 +377,9 @@ def oracles(tokens, timeout, maxidle, stats):
             keys[key] = sid
             if sid not in live:
                 bad.append(("zombie", "released session %d is still in the endpoint table" % sid))
+            if now_p is not None and r_ == 0 and dq_ == 1 and states.get(sid, 4) == 0:
+                bad.append(("not-reclaimed", "disconnected session %d (state NONE, unreferenced) still "
+                            "present after the scan at %d" % (sid, now_p)))
             if now_p is not None and r_ == 0 and dq_ == 1 and last_ + tmo <= now_p:
                 bad.append(("not-reclaimed", "session %d idle since %d still present after the scan at "
                             "%d (timeout %d ticks)" % (sid, last_, now_p, tmo)))
